@@ -1053,6 +1053,13 @@ func kahnsAlgorithmUsingAuthEvents(events []*stateResV2ConflictedPowerLevel) []*
 	inDegree := make(map[string]int, len(events))
 
 	for _, event := range events {
+		// An event listed more than once counts once: counting its dependencies again
+		// would leave them with a count that never reaches zero, and they would then be
+		// emitted ahead of everything else in non-topological order.
+		if _, seen := eventMap[event.eventID]; seen {
+			continue
+		}
+
 		// For each event that we have been given, add it to the event map so that
 		// we can easily refer back to it by event ID later.
 		eventMap[event.eventID] = event
@@ -1139,6 +1146,13 @@ func kahnsAlgorithmUsingPrevEvents(events []*stateResV2ConflictedOther) []*state
 	inDegree := make(map[string]int, len(events))
 
 	for _, event := range events {
+		// An event listed more than once counts once: counting its dependencies again
+		// would leave them with a count that never reaches zero, and they would then be
+		// emitted ahead of everything else in non-topological order.
+		if _, seen := eventMap[event.eventID]; seen {
+			continue
+		}
+
 		// For each event that we have been given, add it to the event map so that
 		// we can easily refer back to it by event ID later.
 		eventMap[event.eventID] = event
